@@ -276,3 +276,19 @@ package ast
 //@   ensures ret >= 0 ==> (pos + 2 <= ret && ret <= len(src))
 //@   loop 0: invariant ptrlo(sp) + pos + 1 <= ptrindex(sp) && ptrindex(sp) <= ptrhi(sp) + 1 && ptrhi(sp) == ptrlo(sp) + len(src) && -1 <= ep && ep < len(src)
 //@   loop 0: decreases ptrhi(sp) + 1 - ptrindex(sp)
+
+// Parser.skip / skipFast / getByPath (C07, C14): on success the value located by the
+// native scanner is a non-empty range [start, p) inside the text; on failure the native
+// error code is handed on unchanged.
+//@ func (*Parser).skip props C07,C14
+//@   requires self != nil && 0 <= self.p && self.p <= len(self.s)
+//@   modifies self.p
+//@   ensures r1 == 0 ==> (0 <= r0 && r0 < self.p && self.p <= len(self.s))
+//@ func (*Parser).skipFast props C07,C14
+//@   requires self != nil && 0 <= self.p && self.p <= len(self.s)
+//@   modifies self.p
+//@   ensures r1 == 0 ==> (0 <= r0 && r0 < self.p && self.p <= len(self.s))
+//@ func (*Parser).getByPath props C07,C14
+//@   requires self != nil && 0 <= self.p && self.p <= len(self.s)
+//@   modifies self.p
+//@   ensures r1 == 0 ==> (0 <= r0 && r0 < self.p && self.p <= len(self.s))
